@@ -311,7 +311,7 @@ func TestC18(t *testing.T) {
 	hx.Check[c18Case]{
 		Property: "C18", Part: "substitution",
 		Rule:  "layouts whose rule, command, run AND all other text fields (names, readme, expires, pubkeys, constraint strings, key fields) hold text from a marker grammar (adjacent, nested-looking, unknown, unbalanced, non-ASCII names) x dictionaries of 0-6 entries with valid and invalid names and marker-containing values; 5 repeated calls (order independence); 1 in 8 cases adds an end-to-end verdict comparison (parameters vs pre-substituted layout); non-trivial = a supplied marker in a substitutable field and marker-looking text in a non-substitutable field, or an end-to-end case; distinct by case JSON",
-		Cases: hx.Pick(2000, 50000),
+		Cases: hx.Pick(2000, 400000),
 		Gen:   c18Gen, Run: c18Run,
 	}.Execute(t)
 }
